@@ -21,7 +21,8 @@ from vlib.core import hx
 
 MODULES = ["TLVerif.Props.C35"]
 THEOREMS = ["TLVerif.Props.C35." + t for t in [
-    "word_roundtrip"]]
+    "frames_roundtrip_plain", "frames_roundtrip_encrypted", "chunk_invariant", "reader_refines_stream",
+    "chunk_dependence_magic", "cbc_roundtrip", "writer_total", "word_roundtrip"]]
 
 NONCE = 0x7acb87aa
 HS = 0x7682eef5
